@@ -9,6 +9,7 @@ Local Open Scope list_scope.
 Section Ren.
   Variable V : Type.
   Variable bin : binop -> V -> V -> V.
+  Variable un : unop -> V -> V.
   Notation node := (node V).
 
   Section One.
@@ -92,7 +93,7 @@ Section Ren.
   Qed.
 
   Lemma inst_ren (a : nat -> option V) (n : node) :
-    inst V bin a (ren n) = inst V bin (fun q => a (s q)) n.
+    inst V bin un a (ren n) = inst V bin un (fun q => a (s q)) n.
   Proof.
     induction n as [q|c|ms IH|o ln rn l r IHl IHr|cls ctor attrs IH|attrs IH] using (node_ind' V).
     - reflexivity.
@@ -102,8 +103,8 @@ Section Ren.
       rewrite Forall_forall in IH. exact (IH _ Hin).
     - cbn [ren inst]. rewrite IHl, IHr. reflexivity.
     - cbn [ren inst]. rewrite ren_attrs_eq. rewrite !inst_attrs_map.
-      assert (M : map (fun kv => (fst kv, inst V bin a (snd kv))) (ren_attrs attrs)
-                  = map (fun kv => (fst kv, inst V bin (fun q => a (s q)) (snd kv))) attrs).
+      assert (M : map (fun kv => (fst kv, inst V bin un a (snd kv))) (ren_attrs attrs)
+                  = map (fun kv => (fst kv, inst V bin un (fun q => a (s q)) (snd kv))) attrs).
       { unfold ren_attrs. rewrite map_map. apply map_ext_in. intros [k c] Hin. simpl. f_equal.
         rewrite Forall_forall in IH. exact (IH _ Hin). }
       rewrite M. reflexivity.
@@ -202,10 +203,10 @@ Section Ren.
   (* supplying the same value for each path yields equal instances *)
   Theorem inst_from_paths_ren (s : nat -> nat) (n : node) (pv : list (path * V)) :
     wf V n -> inj_on s (prior_ids V n) ->
-    inst_from_paths V bin (ren s n) pv = inst_from_paths V bin n pv.
+    inst_from_paths V bin un (ren s n) pv = inst_from_paths V bin un n pv.
   Proof.
     intros W Hi. unfold inst_from_paths. rewrite inst_ren.
-    apply (inst_ext V bin); [exact W|]. intros q Hq. apply path_args_ren; assumption.
+    apply (inst_ext V bin un); [exact W|]. intros q Hq. apply path_args_ren; assumption.
   Qed.
 
   (* ---- the number of free parameters ---- *)
